@@ -229,6 +229,12 @@ func govcItems() []ast.ItemNode {
 	add(func() interface{} { return ast.NewFloatNode(8, 1e300) })
 	add(func() interface{} { return ast.NewBinaryNode(0, 1, 255) })
 	add(func() interface{} { return ast.NewBinaryNode(big...) })
+	// three length bytes: 65536 and more payload bytes
+	huge := make([]interface{}, 65536+259)
+	for i := range huge { huge[i] = (i * 7) % 256 }
+	add(func() interface{} { return ast.NewUintNode(1, huge...) })
+	add(func() interface{} { return ast.NewUintNode(2, huge[:40000]...) })
+	add(func() interface{} { return ast.NewASCIINode(strings.Repeat("abcdefg", 10000)) })
 	add(func() interface{} { return ast.NewBooleanNode(true, false) })
 	add(func() interface{} { return ast.NewASCIINode("") })
 	add(func() interface{} { return ast.NewASCIINode("hello \"w\"") })
@@ -293,6 +299,17 @@ func govcInputs() []interface{} {
 			x := append([]byte{}, m[:14]...)
 			x = append(x, m[14]&0xfc|2, 0, m[15])
 			x = append(x, m[16:]...)
+			out = append(out, fixLen(x))
+		}
+	}
+	// deep nesting: a list of two children (a leaf and the next list) per level, and the same with every leaf kind
+	for _, depth := range []int{400, 3000} {
+		for _, level := range [][]byte{{0x01, 0x02, 0xA5, 0x01, 0x07}, {0x01, 0x06, 0xA5, 0x01, 0x07, 0x41, 0x01, 0x41, 0x21, 0x01, 0x07, 0x25, 0x01, 0x01, 0x91, 0x04, 0x3f, 0x80, 0, 0}, {0x01, 0x01}} {
+			x := append([]byte{}, 0, 0, 0, 0, 0, 1, 0x81, 1, 0, 0, 0, 0, 0, 1)
+			for i := 0; i < depth; i++ {
+				x = append(x, level...)
+			}
+			x = append(x, 0x01, 0x00)
 			out = append(out, fixLen(x))
 		}
 	}
